@@ -453,19 +453,25 @@ PROPS["C14"] = {
             "(1 value = the &str form, otherwise &[HeaderValue]; 1/40 non-ASCII = documented panic), content_type(mime) for 15 MIME "
             "spellings, body_string / body_bytes / body_json / body_form and body(String | Vec<u8> | serde_json::Value) with empty, "
             "1-byte, binary, unicode, NUL, 4 KiB and 70 KB contents, random JSON values (u64::MAX, i64::MIN, floats, escapes, nesting) "
-            "and form pairs with reserved characters, body(Body::from_reader(cursor, None)) (length unknown), query(&pairs). A real Core<App> executes the script through the real builders; "
+            "and form pairs with reserved characters, reader bodies body(Body::from_reader(reader, declared)) — a chain of 1-4 cursors "
+            "with chunks of 0 / 1 / 2-61 / 5000 / 70000 bytes (a single read never crosses a chunk boundary) or a reader that returns "
+            "one byte per read; declared length None / exact / smaller / larger — query(&pairs); 1 case in 25 has 33-80 header LINES (many "
+            "distinct names plus 1-3 multi-valued names with 2-6 distinguishable values, random call order: the lines of one name must "
+            "keep their order, which a non-stable sort breaks beyond 32 elements). A real Core<App> executes the script through the real builders; "
             "the harness prints the HttpRequest operation of the effect (headers grouped by name, sorted). Opaque third-party "
             "results (Url::parse().to_string(), Mime::to_string(), URL after serde_qs + Url::set_query) are computed by `gen` from "
             "those crates directly and are part of the case. non-trivial = at least one builder call and a request was built; "
             "distinct = distinct (api, method, sequence of call kinds, outcome class)",
-    "level_text": "Proof (10 theorems over M.Http.buildRequest; every method token, URL and every LIST of builder calls, arbitrary byte "
+    "level_text": "Proof (12 theorems over M.Http.buildRequest; every method token, URL and every LIST of builder calls, arbitrary byte "
                   "strings, induction over the call list): buildRequest_closed (closed form: one effect, method = upper-cased token, URL "
                   "= result of the last query() else the parsed URL, body = bytes of the last body call, every header name carries exactly "
                   "modelValues), one_effect, method_url_body_exact, headers_exact (last header()/content_type() call on a "
                   "case-insensitively equal name wins with ALL its values in order; content-type from the body otherwise), nothing_added, "
                   "modelValues_eq_expected, C14_sound_partial (okReq accepts the model's observation whenever the content type is not "
                   "stale), stale_content_type_exact (in the defect region the model yields exactly the keyed defect), "
-                  "unknown_length_body_sent (region of the defect repaired by /repo fb3ba05). The FULL statement C14_full is refuted "
+                  "reader_body_exact / reader_chunking_irrelevant / reader_body_complete (a Body::from_reader(reader, declared) arrives as "
+                  "the concatenation of the pieces the reader hands out, cut at the declared length if any — for EVERY chunking and "
+                  "within any call list; covers the region of the defect repaired by /repo fb3ba05). The FULL statement C14_full is refuted "
                   "(C14_full_false; key stale-content-type: post(u).body_string(\"a\").body_json(&{}) sends `{}` as "
                   "text/plain;charset=utf-8). The model is one function for both APIs; that both real APIs behave as it is what the "
                   "correspondence check establishes on every run; the observation includes the order of the emitted headers (sorted by "
@@ -481,8 +487,8 @@ PROPS["C14"] = {
     "assumptions": [
         "header names and values are ASCII (anything else is the documented panic of http-types, outside the property)",
         "URL text parses (a malformed URL is the documented panic of Http::get & co.)",
-        "bodies are in-memory: the body_* constructors, body(String | Vec<u8> | Value) and body(Body::from_reader(Cursor, None)); "
-        "readers that fail or whose declared length differs from their content are not modelled",
+        "reader bodies never fail and are always ready (no Pending, no io::Error); a declared length other than the data's is "
+        "modelled as http-types defines it (reading stops at the declared length or at the reader's end)",
     ],
 }
 
@@ -496,7 +502,13 @@ PROPS["C15"] = {
             "pool with mixed-case and repeated names, several content types and charsets (utf-8, UTF8, quoted, iso-8859-1, euc-kr, "
             "utf-16le, unknown label, unparsable), empty names/values, control characters, 1/12 lists with non-ASCII; bodies per "
             "expectation: valid / invalid UTF-8 (overlong, surrogate, > U+10FFFF, truncated), UTF-8 and UTF-16 byte order marks, "
-            "binary, 70 KB, JSON valid / malformed / out of range for u64; or HttpResult::Err with every HttpError variant (Url, Io, "
+            "binary, 70 KB, JSON valid / malformed / out of range for u64; half of the expect_string cases are charset-directed: a "
+            "content type whose charset is drawn from a pool of 52 labels covering every family of encoding_rs (UTF-8 and aliases, "
+            "UTF-16LE/BE and aliases, ISO-2022-JP, the replacement labels iso-2022-kr/cn, hz-gb-2312, single-byte windows-125x / "
+            "iso-8859-x / koi8 / mac, shift_jis, euc-jp, euc-kr, gbk, gb18030, big5, x-user-defined, unknown labels; upper-cased, "
+            "padded, quoted, in different parameter positions) crossed with 40 body classes (empty, one byte, 7-bit text, BOM-less "
+            "UTF-16 text, ESC / shift sequences, high-bit text of each legacy encoding, truncated multi-byte sequences, byte order "
+            "marks of this or another encoding, random 7-bit and random bytes), expected string from encoding_rs directly; or HttpResult::Err with every HttpError variant (Url, Io, "
             "Timeout, Json, Http). A real Core<App> issues a GET with the expectation, the harness resolves the effect with the result "
             "and prints the number of events and the single outcome (or the panic class). Opaque decoder facts (charset parameter via "
             "Mime, Encoding::for_label, encoding_rs decode for non-UTF-8, serde_json::from_slice) come from `gen` calling those crates "
@@ -577,7 +589,10 @@ PROPS["C10"] = {
     "rule": "the registries are traced on every run by TypeGen::register_app for two harness apps (A: #[effect(typegen)], Event/ViewModel "
             "with unit/newtype/tuple/struct variants, every integer width, f32/f64, char, bool, strings, serde_bytes, nested options, "
             "vecs, BTreeMap, arrays, tuples, unit/newtype/tuple structs, recursive enums, and the protocol types of render, http, kv, "
-            "time, platform; B: #[derive(Effect, Export)] capabilities with skipped internal events); every container of both registries "
+            "time, platform; B: #[derive(Effect, Export)] capabilities with skipped internal events; C: types holding a multi-variant enum "
+            "that is nested and NOT registered on its own — one `typegen` case asks whether the type generator hands out a schema for it: "
+            "it must refuse (typegen-refused), and if it does not, app C's types and bridge outputs are checked like the others); the "
+            "registry is taken through the real TypeGen::ensure_registry (by calling TypeGen::java into a scratch directory); every container of the registries "
             "is a root (35 roots incl. Vec<Request<EffectFfi>>), the harness refuses to run if a traced container has no Rust type. Per "
             "root: `val` = Rust values from hand-written generators (every variant round-robin, lengths 0/1/2/many, strings incl. NUL, "
             "4-byte UTF-8, 300+ chars, bytes incl. all 256 values and 1-4 KiB, integer boundaries min/max/+-1/0, NaN/inf/-0/subnormal "
@@ -586,7 +601,8 @@ PROPS["C10"] = {
             "0/1/many) given to the real bincode deserialiser of the Rust type and re-serialised, plus the same values as `val`; `any` = "
             "those encodings mutated (trailing bytes, truncation, bit flips, tag/length bytes set to boundary values, random bytes; not "
             "for roots containing a map); `strict` also = every byte string Bridge::process_event / handle_response / view returned for "
-            "generated histories of both apps (events and responses encoded from the schema, as a shell does). non-trivial = at least one "
+            "generated histories of the apps (events and responses encoded from the schema, as a shell does; including events and "
+            "responses whose update asks for no effect at all, where the bridge must still return the 8-byte encoding of an empty request list). non-trivial = at least one "
             "byte is written / accepted or a non-empty input is rejected; distinct = distinct (kind, root, outcome, top-level variant, "
             "length class, trailing flag)",
     "level_text": "Proof: for EVERY registry, format, value and byte string (no bound): dec_enc (a well-typed value's encoding, followed "
@@ -598,8 +614,8 @@ PROPS["C10"] = {
                   "kinds (unit/newtype/tuple/named struct, enum with unit/newtype/tuple/struct variants), including recursive registries. "
                   "Whether serde's derive output for a Rust type writes enc v for the v the traced schema assigns to it is checked "
                   "empirically on every run on the registry traced from the working tree. One way it does not is modelled and proved: "
-                  "derive_indices_agree_iff, C10_full_false (crux_http::HttpError: #[serde(skip)] variants declared first shift the "
-                  "numbers Serialize writes), C10_partial.",
+                  "derive_indices_agree_iff, C10_full_false (witness: skipped variants declared first, as crux_http::HttpError was before "
+                  "fix ed5c427, shift the numbers Serialize writes), C10_partial; typegen_oracle_sound (the model of when typegen must refuse).",
     "level_note": "Trusted: Lean kernel + 3 standard axioms; serde-reflection's tracing (its output, regenerated from the source on every "
                   "run, is the input of the theorems); the hand model M.Bincode of bincode 1.3.3 with the bridge's options and the "
                   "universal value (checked against the real serde derive + bincode on ~12k (quick) / ~120k (thorough) cases per run over "
@@ -607,7 +623,8 @@ PROPS["C10"] = {
                   "value->Deserialize builder (each checked against the other on every `val` case). dec takes fuel for container lookups "
                   "(a registry may be cyclic); the driver uses (input length + 1) * (registry size + 1). Maps are sequences of pairs on "
                   "the wire; key order / uniqueness belong to the Rust map type, so generated maps are in key order. C10_full is about "
-                  "derive's variant numbering only; it is false (HttpError), the finding is keyed httperror-skip-index.",
+                  "derive's variant numbering only; it is false in general (witness: HttpError's former declaration order; fixed in /repo by ed5c427, "
+                  "a recurrence would be keyed <enum>-skip-index).",
     "assumptions": [
         "64-bit target: usize is written as u64",
         "the registry is the one Tracer::registry() returns for register_app (+ register_type for nested enums, as a build.rs must)",
@@ -833,6 +850,10 @@ def conc_corerace_gen(tier, seed):
     return [["gen", seed, 3000 if tier == "quick" else 100000, "corerace"]]
 
 
+def conc_bridgerace_gen(tier, seed):
+    return [["gen", seed, 150 if tier == "quick" else 6000, "bridgerace"]]
+
+
 def conc_shape(case, out):
     heads = tuple(sorted(set(_re.findall(r"\((\w[\w-]*)", case))))
     order = case.rsplit("(", 1)[-1]
@@ -844,6 +865,7 @@ PROPS["C08"] = {
         Stream("evict", "conc", "conc", conc_evict_gen, shape=conc_shape, shrink=sexp_shrinks),
         Stream("race", "conc", "conc", conc_race_gen, shape=conc_shape, shrink=sexp_shrinks, compare_model=False),
         Stream("corerace", "conc", "conc", conc_corerace_gen, shape=conc_shape, shrink=sexp_shrinks, compare_model=False),
+        Stream("bridgerace", "conc", "conc", conc_bridgerace_gen, shape=conc_shape, shrink=sexp_shrinks, compare_model=False),
     ],
     "rule": "evict: a task awaiting join!(r0..rN) whose r0 is resolved is polled by thread 0 (`is_done()`) while threads 1..N resolve "
             "r1..rN; real threads are forced through an interleaving of the crux_verif schedule points (exactly one thread runs "
@@ -857,6 +879,9 @@ PROPS["C08"] = {
             "the schedule points of both executors; accepted iff result classes, the union of the effects returned by all calls, the "
             "effects left for a following probe, the multiset of applied events and the queue/occupancy counters equal those of SOME "
             "sequential order of the calls (all permutations computed by M.Hosts); the harness app flags concurrent entry into update. "
+            "bridgerace: the same through a bincode Bridge with 2-3 threads calling process_event / handle_response, often addressing "
+            "the SAME live stream id (a schedule point inside resume is reached with the registry lock held, so the other thread "
+            "blocks on the lock: such schedules are released after 80 ms and only the outcome is judged). "
             "non-trivial: every case (each forces a real "
             "interleaving); distinct = distinct (constructs, schedule, result classes)",
     "level_text": "Proof (Props/C08.lean) on the LTS M.Conc (P-evict: eviction check of Command::run_task vs any number of concurrent "
@@ -949,7 +974,9 @@ PROPS["C11"] = {
             "cores afresh, so every http-types header map has a fresh RandomState and the timer counter has moved on) and one in "
             "each of 2 fresh `det worker` processes (fresh hash seeds, counter back at 1). Stream hdr: (API ∈ {capability, command}) "
             "× request with 0-6 header() calls (names from a pool with mixed-case duplicates, random tokens, 0/1/2/3 values per call) "
-            "and optionally a body; observation = bincode of the single HttpRequest effect, which must be byte-identical in all "
+            "and optionally a body, 1 case in 12 with 33-80 header LINES (distinct names plus 1-3 multi-valued names with 2-6 "
+            "distinguishable values, random call order — beyond 32 lines a non-stable sort orders the lines of one name by hash seed); "
+            "observation = bincode of the single HttpRequest effect, which must be byte-identical in all "
             "replays and equal to the model's (headers sorted by name, values in order). Stream eq: half `Response == Response` for "
             "two ResponseBuilder descriptions with 0-4 header names (identical / one field tweaked / independent / prefix shapes), "
             "each evaluated 30·n! times per replay (n = header names) or until both results were seen — the observation is the SET "
@@ -995,9 +1022,10 @@ NOT_YET = {}
 # ---- C18 (engine timer) -----------------------------------------------------------------------------------------
 def timer_gen(tier, seed):
     if tier == "quick":
-        return [["gen-exh", 7, "cmd", "alt"], ["gen-exh", 6, "core", "alt"], ["gen-exh", 4, "legacy"], ["gen", seed, 8000]]
+        return [["gen-exh", 7, "cmd", "alt"], ["gen-exh", 6, "core", "alt"], ["gen-exh", 4, "legacy"], ["gen", seed, 8000],
+                ["gen-mixed", seed, 5000]]
     return [["gen-exh", 9, "cmd", "A"], ["gen-exh", 8, "cmd", "T"], ["gen-exh", 8, "core", "alt"],
-            ["gen-exh", 6, "legacy"], ["gen", seed, 400000]]
+            ["gen-exh", 6, "legacy"], ["gen", seed, 400000], ["gen-mixed", seed, 250000]]
 
 
 def timer_nontrivial(case, out):
@@ -1027,17 +1055,21 @@ PROPS["C18"] = {
     "streams": [Stream("timer", "timer", "timer", timer_gen, nontrivial=timer_nontrivial, shape=timer_shape,
                        shrink=timer_shrinks)],
     "rule": "case = host (cmd: every timer's Command driven directly with effects()/events()/is_done(); core: the Commands "
-            "returned from an App's update and hosted by a real Core; legacy: caps.time.notify_after/notify_at/clear in a Core) "
+            "returned from an App's update and hosted by a real Core; legacy: caps.time.notify_after/notify_at/clear in a Core; "
+            "mixed: ONE app in ONE Core that starts timers through BOTH APIs in an interleaved order - per timer either the "
+            "legacy capability or command::Time created in update on its start action) "
             "x constructor per timer (notify_after | notify_at) x 1..4 timers x a sequence of actions addressed to a timer: poll, "
             "fire (matching response), fire with a foreign id, fire with the other kind, drop the request, handle.clear(), drop "
             "the handle, answer the Clear request (right / foreign id / wrong kind), drop the Clear request; a second resolve of "
             "a request is the duplicate / late response; legacy: start, start+clear in one update, clear(id), fire/wrong/drop, "
             "resolve the Clear notification. ENUMERATED: every sequence the syntactic applicability automaton admits for one "
             "timer up to length 7 (cmd), 6 (core), 4 (legacy) in the quick tier and 9 / 8 / 6 in the thorough tier; SAMPLED: "
-            "seeded random sequences of length 3..20 over 1..4 timers for all three hosts. Observation per step: result class "
+            "seeded random sequences of length 3..20 over 1..4 timers for cmd/core/legacy (8 000 quick) and mixed sequences over "
+            "1..6 timers with a random API and constructor per timer, starts spread over the sequence with polls / fires / "
+            "clears / drops in between (5 000 quick, 250 000 thorough). Observation per step: result class "
             "of the call (performed/ok/err/nothing to act on/panic), the TimeRequest effects that became visible (kind + owner "
-            "of the id), the outcome events, is_done(); plus whether the raw ids were pairwise distinct and increasing in "
-            "creation order. non-trivial = a Clear request, an outcome, a panic or a refused resolve was observed; distinct = "
+            "of the id), the outcome events, is_done(); plus whether ALL raw ids handed out in the case - by either API - were "
+            "pairwise distinct and increasing in creation order (ids:ok | ids:dup | ids:unordered; oracle key id-not-unique). non-trivial = a Clear request, an outcome, a panic or a refused resolve was observed; distinct = "
             "distinct (host, number of timers, set of step records with indices abstracted)",
     "level_text": "Proof: for EVERY list of (action, command-run-afterwards?) pairs (unbounded; induction over the list with the "
                   "timer's control state as invariant) the Lean model of notify_after/notify_at satisfies every clause of the "
@@ -1045,7 +1077,9 @@ PROPS["C18"] = {
                   "argument), completed_only_if_answered, cleared_only_if_cleared, clear_before_start_silent (+ direct form), "
                   "clear_while_pending_one_clear (one Clear, sent when due, cleared reported once answered), answer_wins_if_waiting, "
                   "drop_handle_no_cancel (+ direct form), late_ignored (+ direct form), request_sent_quiet_no_panic_own_ids; "
-                  "ids_unique / ids_increasing for the wrapping usize counter; timers_independent (the part of a joint run the "
+                  "ids_unique / ids_increasing for the wrapping usize counter, ids_unique_joint (any interleaving of legacy and command-API "
+                  "allocations) and ids_unique_mixed (in the model of one app using both APIs - one shared counter, as both call "
+                  "get_timer_id - no two timers of whichever APIs share an id after any history); timers_independent (the part of a joint run the "
                   "specification attributes to one timer is a run of that timer alone, for direct and Core hosting); "
                   "C18_command_sound (the oracle accepts the model on every case, any number of timers, both hosts). Legacy "
                   "capability API (any number of timers sharing the counter and CLEARED_TIMER_IDS): C18_legacy_full (the same "
@@ -1053,7 +1087,8 @@ PROPS["C18"] = {
                   "C18_legacy_full_false proves it from the witness `start+clear in one update` and the "
                   "real code reproduces it (known finding legacy-clear-always-notifies); C18_legacy_partial proves every other "
                   "clause for every joint legacy history, legacy_ids_unique the invariant behind it (ids distinct and below the "
-                  "counter, the set in sync with every pending timer), legacy_cleared_reports the deferred Cleared. The model is tied to the code by running the same enumerated and sampled cases "
+                  "counter, the set in sync with every pending timer), legacy_cleared_reports the deferred Cleared; C18_mixed_partial: the same for every history of one app that "
+                  "starts timers through both APIs (C18_mixed_full false by the same witness). The model is tied to the code by running the same enumerated and sampled cases "
                   "through the real crux_time/crux_core code and the compiled model on every run and comparing line by line.",
     "level_note": "Trusted: Lean kernel + propext/Classical.choice/Quot.sound; the hand model M.Timer of command.rs:48-208, lib.rs:26-29, "
                   "93-225 and of the Command runtime facts it relies on (a task is polled only when woken; a request future sends its "
